@@ -134,6 +134,7 @@ class Exec(object):
         self.prune = prune
         self.module_globals = {}      # module short name -> {name: value}
         self.kappa = tm.var('kappa0', INT)    # random-stream position
+        self.kappa_entry = self.kappa
         self.ghost = {}
         self.loop_stack = []          # active invariant-loop write sets
         self.notes = []
@@ -396,6 +397,12 @@ class Exec(object):
                     hint = cc.hints.get('%s.%s' % (o.name, attr))
                     if hint is None:
                         hint = cc.hints.get('%s.%s' % (o.clsname, attr))
+                if hint is None:
+                    from . import contracts as _C
+                    for kc in self.program.mro(o.cls):
+                        hint = _C.FIELD_HINTS.get('%s.%s' % (kc.name, attr))
+                        if hint is not None:
+                            break
                 key = (o.oid, attr)
                 if key in self.lazy_init:
                     v = _clone_initial(self.lazy_init[key])
